@@ -268,11 +268,23 @@ Proof.
     specialize (Q Hin). unfold g, t_id, t_did in Q. cbn [fst snd] in Q. rewrite Hi, Z.eqb_refl in Q.
     cbn [negb orb] in Q. apply Z.leb_le. exact Q. }
   unfold tad_core. rewrite relabel_snd, map_map. cbn [snd].
-  rewrite (tad_sorted_identity fr dids Hlen Gids Gsort).
-  rewrite (filter_true _ (combine (combine fr dids) (tad_values (combine fr dids)))).
-  2:{ intros [p v] Hp. apply in_combine_l in Hp. cbn [fst]. rewrite ES in Hp. apply in_map_iff in Hp. destruct Hp as [r [<- _]]. reflexivity. }
-  rewrite map_snd_combine.
-  2:{ unfold tad_values, group_cumsum. rewrite scan_length, combine_length. unfold group_diff. rewrite scan_length. apply Nat.min_id. }
+  rewrite (tad_sorted_pos_identity fr dids Hlen Gids Gsort).
+  set (F' := combine (combine fr dids) (zseq 0 (length (combine fr dids)))).
+  assert (EF : @map (trow * Z) trow (@fst trow Z) F' = combine fr dids) by (apply map_fst_combine; apply zseq_length).
+  rewrite EF.
+  assert (Lv : length (tad_values (combine fr dids)) = length F').
+  { rewrite tad_values_length. unfold F'. rewrite combine_length, zseq_length. symmetry. apply Nat.min_id. }
+  rewrite (isort_sorted_id (fun x : prow * Z => p_pos (fst x))).
+  2:{ rewrite <- (map_map fst p_pos), map_fst_combine by exact Lv.
+      assert (E0 : map p_pos F' = zseq 0 (length (combine fr dids))).
+      { exact (map_snd_combine_len (combine fr dids) (zseq 0 (length (combine fr dids))) (zseq_length _ _)). }
+      rewrite E0. apply asc_ssorted. apply zseq_asc. }
+  rewrite (filter_true _ (combine F' (tad_values (combine fr dids)))).
+  2:{ intros [[tr pos] v] Hp. apply in_combine_l in Hp. cbn [fst].
+      assert (In tr (combine fr dids)) by (rewrite <- EF; apply (in_map fst _ _ Hp)).
+      rewrite ES in H. apply in_map_iff in H. destruct H as [r [E _]]. rewrite <- E. reflexivity. }
+  etransitivity; [|clear Lv].
+  1:{ etransitivity; [exact (map_snd_combine_len F' _ Lv)|]. reflexivity. }
   rewrite tad_values_closed, ES. unfold tad_walk. fold s rows.
   rewrite (tad_walk_closed s rows Glab).
   change (@nil trow) with (map g []). rewrite (scan_map g).
